@@ -222,10 +222,9 @@ class UtilityParity(ClassificationMoment):
 
     def gamma(self, predictor: Callable) -> pd.Series:
         """Calculate the degree to which constraints are currently violated by the predictor."""
-        predictions = predictor(self.X)
-        if isinstance(predictions, np.ndarray):
-            # TensorFlow seems to return an (n,1) array instead of an (n) array
-            predictions = np.squeeze(predictions)
+        # Rows are paired by position: a pandas result is not to be aligned on its index labels.
+        # TensorFlow seems to return an (n,1) array instead of an (n) array
+        predictions = np.squeeze(np.asarray(predictor(self.X)))
         pred = self.utility_diff.T * predictions + self.utilities[:, 0]
         g_signed = -self.U.T.dot(pred) / self.total_samples
         self._gamma_descr = str(g_signed)
